@@ -440,7 +440,8 @@ def _show(v):
 
 def self_obj(which, docv, ctrl=("None",)):
     state = ("enum", "ValidationState", {"ctrl": ctrl, "eval_generic_rule": ("None",), "generic_rules": absint.MutList(),
-                                         "is_ctrl_map_equality": False, "occurrence": ("None",), "cddl": OPAQUE})
+                                         "is_ctrl_map_equality": False, "occurrence": ("None",), "cddl": OPAQUE,
+                                         "is_member_key": False})
     return ("enum", "Self", {"state": state, "json" if which == "json" else "cbor": docv, "errors": absint.MutList()})
 
 
@@ -476,9 +477,15 @@ def ctrl_restore_table(facts, which, cfgname="default"):
                                                         "controller": ("enum", "Type2::UintValue", {"value": 3})}, scripts=scripts)
                     base_on_call = r.on_call
 
-                    def on_call(kind, name, node, args, recv, base=base_on_call, pred=pred):
+                    trace = []
+
+                    def on_call(kind, name, node, args, recv, base=base_on_call, pred=pred, trace=trace):
                         if kind == "fn" and name and (name.startswith("is_ident_") or name.startswith("ident_")):
                             return pred
+                        if name and not (kind == "method" and name in ("add_error", "clone", "as_ref", "to_string", "len", "is_empty", "iter", "is_some",
+                                                                          "is_none", "as_str", "into", "borrow", "as_deref", "to_owned", "unwrap_or")):
+                            if kind == "fn" or (node.get("r") is not None and vf.src(node["r"]).startswith("self")):
+                                trace.append(name.split("::")[-1])
                         return base(kind, name, node, args, recv)
                     r.it.on_call = on_call
                     key = "%s|target=%s|preds=%s|doc=%s" % (cname, tname, pred, dname)
@@ -493,6 +500,7 @@ def ctrl_restore_table(facts, which, cfgname="default"):
                             continue
                     after = obj[2]["state"][2]["ctrl"]
                     rows.append({"key": key, "ctrl_after": "None" if after == ("None",) else repr(after)[:60], "visits": len(visits),
+                                 "errors": r.errors + len(obj[2]["errors"]), "calls": sorted(set(trace)),
                                  "line": fi.line, "file": fi.file})
     return rows
 
